@@ -1438,6 +1438,7 @@ func (d *DotGit) rewritePackedRefsWithoutRef(name plumbing.ReferenceName) (err e
 
 	s := bufio.NewScanner(pr)
 	found := false
+	skipPeeled := false
 	for s.Scan() {
 		line := s.Text()
 		ref, err := d.processLine(line)
@@ -1447,8 +1448,16 @@ func (d *DotGit) rewritePackedRefsWithoutRef(name plumbing.ReferenceName) (err e
 
 		if ref != nil && ref.Name() == name {
 			found = true
+			skipPeeled = true
 			continue
 		}
+		// The "^<hash>" line after an annotated tag belongs to that tag's
+		// entry and must go with it; left behind it would follow (and be
+		// attributed to) another entry, or make git reject the file.
+		if skipPeeled && len(line) > 0 && line[0] == '^' {
+			continue
+		}
+		skipPeeled = false
 
 		if _, err := fmt.Fprintln(tmp, line); err != nil {
 			return err
